@@ -189,12 +189,20 @@ func onResourceRuleUpdate(res string, rule *Rule) (err error) {
 	}()
 
 	circuitRule := rule.Rule
-	if err = IsValidRule(rule); err != nil {
-		logging.Warn("[Outlier onResourceRuleUpdate] Ignoring invalid outlier ejection rule", "rule", rule, "err", err.Error())
-		return
+	err = IsValidRule(rule)
+	if err == nil {
+		err = circuitbreaker.IsValidRule(circuitRule)
 	}
-	if err = circuitbreaker.IsValidRule(circuitRule); err != nil {
-		logging.Warn("[Outlier onRuleUpdate] Ignoring invalid rule when loading new rules", "rule", rule, "err", err.Error())
+	if err != nil {
+		// Like every other rule manager: an invalid rule is ignored, and the load still replaces
+		// what was loaded for the resource before (which is then nothing).
+		logging.Warn("[Outlier onResourceRuleUpdate] Ignoring invalid outlier ejection rule", "rule", rule, "err", err.Error())
+		updateMux.Lock()
+		delete(nodeBreakers, res)
+		delete(breakerRules, res)
+		delete(outlierRules, res)
+		updateMux.Unlock()
+		currentRules[res] = rule
 		return
 	}
 
@@ -268,7 +276,7 @@ func ClearRuleOfResource(res string) error {
 }
 
 func IsValidRule(r *Rule) error {
-	if r == nil {
+	if r == nil || r.Rule == nil {
 		return errors.New("nil Rule")
 	}
 	if len(r.Resource) == 0 {
